@@ -5,6 +5,10 @@ import (
 	"bytes"
 	"context"
 	"fmt"
+	"io"
+	"time"
+
+	"github.com/gobwas/ws"
 	"net/http"
 	"net/url"
 	"os"
@@ -361,6 +365,7 @@ func TestPropEquiv(t *testing.T) {
 // (3) healthz
 
 type HCase struct {
+	Watch    bool     `json:"watch"` // also follow the first service over the documented WebSocket binding (Health.Watch)
 	Services []string `json:"services"`
 	Statuses []int32  `json:"statuses"`
 	Queries  []string `json:"queries"` // service names asked for (may be unknown); "\x00none" = no parameter
@@ -411,7 +416,75 @@ func CheckHealth(c HCase) []evid.Violation {
 			vs = append(vs, evid.V("healthz-status", "", "GET /v1/healthz?%s -> %d %s, want status %v", raw, res.Rec.Code, res.Rec.Body.String(), want))
 		}
 	}
+	if c.Watch {
+		vs = append(vs, checkWatch(c, mux, hs, model)...)
+	}
 	return vs
+}
+
+// checkWatch dials ws /v1/healthz?service=S (Health.Watch): the watcher must
+// receive the current status and then every status set afterwards.
+func checkWatch(c HCase, mux http.Handler, hs interface {
+	SetServingStatus(string, healthpb.HealthCheckResponse_ServingStatus)
+	Shutdown()
+}, model map[string]healthpb.HealthCheckResponse_ServingStatus) []evid.Violation {
+	defer hs.Shutdown() // ends the Watch handler
+	svc := "late-svc"
+	want := healthpb.HealthCheckResponse_SERVICE_UNKNOWN
+	if len(c.Services) > 0 {
+		svc = c.Services[0]
+		want = model[svc] // a later duplicate wins
+	}
+	real := drive.Real()
+	real.Use(mux)
+	ctx, cancel := context.WithTimeout(context.Background(), 10*time.Second)
+	defer cancel()
+	conn, br, _, err := ws.Dial(ctx, "ws://"+real.Addr+"/v1/healthz?service="+url.QueryEscape(svc))
+	if err != nil {
+		return []evid.Violation{evid.V("healthz-watch", "watch-dial", "websocket /v1/healthz: %v", err)}
+	}
+	defer conn.Close()
+	conn.SetDeadline(time.Now().Add(10 * time.Second))
+	var rd io.Reader = conn
+	if br != nil {
+		rd = br
+	}
+	next := func() (healthpb.HealthCheckResponse_ServingStatus, string) {
+		for {
+			f, err := ws.ReadFrame(rd)
+			if err != nil {
+				return -1, "read: " + err.Error()
+			}
+			switch f.Header.OpCode {
+			case ws.OpText:
+				var rsp healthpb.HealthCheckResponse
+				if err := protojson.Unmarshal(f.Payload, &rsp); err != nil {
+					return -1, "not a HealthCheckResponse: " + string(f.Payload)
+				}
+				return rsp.Status, ""
+			case ws.OpClose:
+				code, reason := ws.ParseCloseFrameData(f.Payload)
+				return -1, fmt.Sprintf("closed %d %q", code, reason)
+			}
+		}
+	}
+	seq := []healthpb.HealthCheckResponse_ServingStatus{want}
+	for _, st := range []healthpb.HealthCheckResponse_ServingStatus{healthpb.HealthCheckResponse_NOT_SERVING, healthpb.HealthCheckResponse_SERVING} {
+		if st == seq[len(seq)-1] {
+			continue
+		}
+		seq = append(seq, st)
+	}
+	for i, w := range seq {
+		if i > 0 {
+			hs.SetServingStatus(svc, w)
+		}
+		got, problem := next()
+		if problem != "" || got != w {
+			return []evid.Violation{evid.V("healthz-watch", "watch-sequence", "websocket watcher of %q: update %d should be %v, got %v %s", svc, i, w, got, problem)}
+		}
+	}
+	return nil
 }
 
 func TestPropHealthz(t *testing.T) {
@@ -429,6 +502,7 @@ func TestPropHealthz(t *testing.T) {
 			c.Statuses = append(c.Statuses, int32(rapid.IntRange(0, 3).Draw(t, "st")))
 		}
 		c.Overall = int32(rapid.IntRange(0, 2).Draw(t, "overall"))
+		c.Watch = rapid.IntRange(0, 7).Draw(t, "watch") == 0
 		c.Queries = append(c.Queries, "\x00none")
 		c.Queries = append(c.Queries, c.Services...)
 		c.Queries = append(c.Queries, nameGen.Filter(func(s string) bool { return s != "" && isValidUTF8(s) }).Draw(t, "unknown"))
@@ -437,13 +511,19 @@ func TestPropHealthz(t *testing.T) {
 		if n > 0 {
 			key = fmt.Sprintf("h|%v|%v|%d", c.Services, c.Statuses, c.Overall)
 		}
-		evid.Eval(key, "healthz")
+		if c.Watch {
+			evid.Eval(key, "healthz", "healthz-ws-watch")
+		} else {
+			evid.Eval(key, "healthz")
+		}
 		evid.Sample("healthz", c)
 		evid.Report(t, prop, map[string]any{"kind": "healthz", "health": c}, vs)
 	})
 }
 
-func isValidUTF8(s string) bool { return strings.ToValidUTF8(s, "�") == s && !strings.Contains(s, "�") }
+func isValidUTF8(s string) bool {
+	return strings.ToValidUTF8(s, "�") == s && !strings.Contains(s, "�")
+}
 
 // ---------------------------------------------------------------------------
 
